@@ -6,7 +6,8 @@ from fractions import Fraction
 from core.exact import rs, recover
 from core.runner import Prop
 
-SIZE_SETS = [[2], [3], [2, 3], [2, 4], [2, 5], [3, 5], [2, 3, 4], [2, 4, 6], [4], [2, 3, 5], [3, 4]]
+SIZE_SETS = [[2], [3], [2, 3], [2, 4], [2, 5], [3, 5], [2, 3, 4], [2, 4, 6], [4], [2, 3, 5], [3, 4],
+             [1, 2], [1, 3], [1, 2, 4], [1]]          # a 1-clique is a vertex covered by itself (vertex clique covers)
 
 
 class C08(Prop):
